@@ -106,7 +106,9 @@ func (c *RecConn) Set(key string, value []byte) error {
 			return err
 		}
 	}
-	c.M[key] = append([]byte(nil), value...)
+	// The slice is KEPT, not copied (the Conn contract does not promise a copy, and a simple map-backed store would do
+	// just this): a caller that goes on using the buffer it handed over changes what is stored.
+	c.M[key] = value
 	c.Ops = append(c.Ops, op)
 	return nil
 }
